@@ -1952,7 +1952,11 @@ namespace
     }
     value time_(runtime& runtime)
     {
+#ifdef SQFVM_RUNTIME_VERIF
+        auto curtime = sqf::verif::now();
+#else
         auto curtime = std::chrono::system_clock::now();
+#endif // SQFVM_RUNTIME_VERIF
         auto starttime = runtime.runtime_timestamp();
         // Time is since beginning of game so long is fine.
         long r = static_cast<long>(std::chrono::duration_cast<std::chrono::milliseconds>(curtime - starttime).count());
